@@ -16,6 +16,8 @@ def load_known(prop):
     return [e for e in data.get('findings', []) if e.get('property') == prop]
 
 def _match_spec(spec, val):
+    if isinstance(spec, dict) and len(spec) > 1:
+        return all(_match_spec({k: v}, val) for k, v in spec.items())      # several conditions on one key: all of them
     if isinstance(spec, dict):
         if 'in' in spec: return val in spec['in']
         if 'subset_of' in spec: return val is not None and set(val) <= set(spec['subset_of'])
